@@ -24,6 +24,8 @@
 #include "celt/celt.h"
 #include "celt/entdec.h"
 #include "celt/entenc.h"
+#include "celt/rate.h"
+#include "celt/modes.h"
 #include "silk/tables.h"
 
 /* ------------------------------------------------------------------ recording */
@@ -145,11 +147,58 @@ void __wrap_silk_stereo_decode_mid_only(ec_dec *dec, opus_int *flag)
    if (g_recording) { ev(" M%d", *flag); if (*flag) g_dist[9]++; }
 }
 
+/* ---- stage 2: the CELT header.  While g_celt_on is set (from the entry of a CELT decode of packet data to the
+   entry of clt_compute_allocation) every entropy-decoder call is recorded with its parameters and result. */
+static int g_celt_on;
+int __real_ec_dec_bit_logp(ec_dec *, unsigned);
+int __wrap_ec_dec_bit_logp(ec_dec *d, unsigned logp)
+{ int v = __real_ec_dec_bit_logp(d, logp); if (g_celt_on) rec(" b%u=%d", logp, v); return v; }
+opus_uint32 __real_ec_dec_uint(ec_dec *, opus_uint32);
+opus_uint32 __wrap_ec_dec_uint(ec_dec *d, opus_uint32 ft)
+{ opus_uint32 v = __real_ec_dec_uint(d, ft); if (g_celt_on) rec(" u%u=%u", (unsigned)ft, (unsigned)v); return v; }
+opus_uint32 __real_ec_dec_bits(ec_dec *, unsigned);
+opus_uint32 __wrap_ec_dec_bits(ec_dec *d, unsigned n)
+{ opus_uint32 v = __real_ec_dec_bits(d, n); if (g_celt_on) rec(" r%u=%u", n, (unsigned)v); return v; }
+int __real_ec_dec_icdf(ec_dec *, const unsigned char *, unsigned);
+int __wrap_ec_dec_icdf(ec_dec *d, const unsigned char *icdf, unsigned ftb)
+{
+   int v = __real_ec_dec_icdf(d, icdf, ftb);
+   if (g_celt_on) { int k = 0; rec(" i%u:", ftb); do { rec("%s%u", k ? "." : "", icdf[k]); } while (icdf[k++] != 0 && k < 64); rec("=%d", v); }
+   return v;
+}
+unsigned __real_ec_decode_bin(ec_dec *, unsigned);
+unsigned __wrap_ec_decode_bin(ec_dec *d, unsigned bits)
+{ unsigned v = __real_ec_decode_bin(d, bits); if (g_celt_on) rec(" d%u=%u", bits, v); return v; }
+void __real_ec_dec_update(ec_dec *, unsigned, unsigned, unsigned);
+void __wrap_ec_dec_update(ec_dec *d, unsigned fl, unsigned fh, unsigned ft)
+{ if (g_celt_on) rec(" p%u,%u,%u", fl, fh, ft); __real_ec_dec_update(d, fl, fh, ft); }
+int __real_clt_compute_allocation(const CELTMode *, int, int, const int *, const int *, int, int *, int *, opus_int32,
+      opus_int32 *, int *, int *, int *, int, int, ec_ctx *, int, int, int);
+int __wrap_clt_compute_allocation(const CELTMode *m, int start, int end, const int *offsets, const int *cap, int alloc_trim,
+      int *intensity, int *dual_stereo, opus_int32 total, opus_int32 *balance, int *pulses, int *ebits, int *fine_priority,
+      int C, int LM, ec_ctx *ec, int encode, int prev, int signalBandwidth)
+{
+   if (g_celt_on && !encode) {
+      int i;
+      rec(" A%d,%d,%d,%d,%d,%d:", start, end, C, LM, alloc_trim, (int)total);
+      for (i = start; i < end; i++) rec("%s%d", i > start ? "." : "", offsets[i]);
+      rec(":");
+      for (i = 0; i < 21; i++) rec("%s%d", i ? "." : "", cap[i]);
+      rec(":%u,%u", (unsigned)ec->rng, (unsigned)ec_tell_frac(ec));
+      g_celt_on = 0; g_dist[3]++;
+   }
+   return __real_clt_compute_allocation(m, start, end, offsets, cap, alloc_trim, intensity, dual_stereo, total, balance,
+      pulses, ebits, fine_priority, C, LM, ec, encode, prev, signalBandwidth);
+}
+
 int __real_celt_decode_with_ec(CELTDecoder *, const unsigned char *, int, opus_res *, int, ec_dec *, int);
 int __wrap_celt_decode_with_ec(CELTDecoder *st, const unsigned char *data, int len, opus_res *pcm, int frame_size, ec_dec *dec, int accum)
 {
-   int ret = __real_celt_decode_with_ec(st, data, len, pcm, frame_size, dec, accum);
-   if (g_recording && data != NULL && data >= g_pkt && data <= g_pkt + g_pktlen) {
+   int inpkt = g_recording && data != NULL && data >= g_pkt && data <= g_pkt + g_pktlen, ret;
+   if (inpkt && len > 1) g_celt_on = 1;      /* redundancy frame: its header precedes the E token */
+   ret = __real_celt_decode_with_ec(st, data, len, pcm, frame_size, dec, accum);
+   g_celt_on = 0;
+   if (inpkt) {
       opus_uint32 r = 0;
       celt_decoder_ctl(st, OPUS_GET_FINAL_RANGE(&r));
       g_red = r; g_e_off = (long)(data - g_pkt);
@@ -169,15 +218,19 @@ int __wrap_celt_decode_with_ec_dred(CELTDecoder *st, const unsigned char *data, 
 #endif
    )
 {
-   if (g_recording && g_hybrid && data != NULL && dec != NULL) {
-      rec(" C%d,%u,%u,%d", len, (unsigned)dec->storage, (unsigned)dec->rng, ec_tell(dec));
-      g_dist[11]++;
+   int ret;
+   if (g_recording && data != NULL && dec != NULL && data >= g_pkt && data <= g_pkt + g_pktlen) {
+      if (g_hybrid) { rec(" C%d,%u,%u,%d", len, (unsigned)dec->storage, (unsigned)dec->rng, ec_tell(dec)); g_dist[11]++; }
+      else if (len > 1) rec(" celt@%ld", (long)(data - g_pkt));
+      if (len > 1) g_celt_on = 1;
    }
-   return __real_celt_decode_with_ec_dred(st, data, len, pcm, frame_size, dec, accum
+   ret = __real_celt_decode_with_ec_dred(st, data, len, pcm, frame_size, dec, accum
 #ifdef ENABLE_DEEP_PLC
       , lpcnet
 #endif
       );
+   g_celt_on = 0;
+   return ret;
 }
 
 /* ------------------------------------------------------------------ one case */
@@ -423,7 +476,7 @@ static long gen_struct(vrng *r, unsigned char *o)
 
 static void print_dist(void)
 {
-   static const char *nm[16] = {"sig0", "sig1", "sig2", "sig3", "lbrr_indices", "cond_coded", "indep_no_ltp_scaling", "pulses_gt16",
+   static const char *nm[16] = {"sig0", "sig1", "sig2", "celt_headers", "lbrr_indices", "cond_coded", "indep_no_ltp_scaling", "pulses_gt16",
       "stereo_pred", "mid_only", "redundancy_frames", "hybrid_celt_entries", "fec_decodes", "celt_packets", "hybrid_packets", "pulses_ge8192"};
    int i;
    printf("#");
